@@ -10,6 +10,8 @@ HARNESS = {
     'rotenc': dict(cpp=['h/h_rotenc.cpp'], c=['adp/adp_rotenc.c'], repo=['librfn/rotenc.c']),
     'mlog': dict(cpp=['h/h_mlog.cpp'], c=['adp/adp_mlog.c'],
                  repo=['librfn/mlog.c', 'librfn/string.c', 'librfn/util.c', 'librfn/posix/time_posix.c']),
+    'hex': dict(cpp=['h/h_hex.cpp'], c=['adp/adp_hex.c'],
+                repo=['librfn/hex.c']),
     'list': dict(cpp=['h/h_list.cpp'], c=['adp/adp_list.c'], repo=['librfn/list.c']),
 }
 
@@ -75,6 +77,27 @@ PROPS = {
                  'nice-recorded': 100, 'clear': 1000},
         assumptions=['the harness formats the expected text with snprintf and the same literal format strings',
                      'mlog_verif_set_count (hook) only moves the counter to a value congruent mod 256; the thorough tier crosses the fold without it'],
+    ),
+    'C18': dict(
+        title='Hex dump output parses back to the same bytes; the parser is safe on any text',
+        rule='three kinds of case: (a) byte array of length 0..100 (biased to 0,1,15,16,17,31,32,33,...) dumped with '
+             'hex_dump_to_file into a memory stream, format checked, parsed back; (b) text built from the grammar '
+             '(all lines or none carry an address: prefix; pairs in either case with optional 0x, all isspace() '
+             'blanks, blank lines, trailing junk) whose bytes are known by construction; (c) arbitrary strings over '
+             'hex digits, x, :, white space, newlines and any other byte, parsed under both calling conventions for '
+             'safety (range, termination bound, -1 sticky, resume pointer inside the string, ASan on an exact heap '
+             'block). Non-trivial: arrays > 16 bytes, multi-line prefixed texts, strings of >= 2 characters. '
+             'Distinct = distinct tapes; enum stage = every string of length 6 (8 thorough) over the alphabet {0,x,a,F,:,newline,space,g}.',
+        stages=[
+            dict(h='hex', mode='rc', what='random arrays, grammar texts, arbitrary strings',
+                 quick=dict(cases=200000, len=260), thorough=dict(cases=5000000, len=260)),
+            dict(h='hex', mode='enum', what='every string over {0,x,a,F,:,newline,space,g}', params=dict(kind=2),
+                 quick=dict(params=dict(len=6)), thorough=dict(params=dict(len=8))),
+        ],
+        require={'round-trip-more-than-one-line': 1000, 'grammar-multi-line-with-prefix': 1000, 'arbitrary-string': 1000,
+                 'trailing-junk': 1000, 'grammar-without-prefix': 1000},
+        assumptions=['texts with an address prefix on only some lines are outside the stated grammar ("on each line") and are generated for the safety oracle only',
+                     'glibc isspace/isxdigit accept negative char values (bytes >= 0x80) without faulting'],
     ),
     'C12': dict(
         title='Pack/unpack never leaves the buffer, fails stickily, and uses fixed byte order',
